@@ -25,6 +25,8 @@ type propDef struct {
 
 var props = map[string]*propDef{}
 
+var selfTestResult map[string]any
+
 func register(p *propDef) { props[p.id] = p }
 
 type knownFinding struct {
@@ -262,6 +264,10 @@ func run(p *propDef, tier, repo, verif string, seed int, explainKey string, noEv
 	fmt.Printf("property=%s tier=%s obligations=%d discharged=%d known=%d deviations(unarmed)=%d violations=%d functions=%d wall=%.1fs\n",
 		p.id, tier, len(allObs), discharged, knownHits, deviations, violations, len(c.analysed), wall)
 	if !noEv {
+		if tier == "thorough" {
+			selfTestResult = selfTest(p.id, repo, verif)
+			wall = time.Since(start).Seconds()
+		}
 		writeEvidence(p, c, allObs, tier, seed, verif, wall, violations, discharged, knownHits, deviations, fixed, perArch)
 	}
 	if explainKey != "" {
@@ -343,6 +349,9 @@ func writeEvidence(p *propDef, c *Ctx, obs []Ob, tier string, seed int, verif st
 		"checker_cmd":            fmt.Sprintf("bin/vcheck -p %s -tier %s", p.id, tier),
 		"trusted_base":           []string{"go/types and go/ssa (golang.org/x/tools v0.50.0)", "Go standard library semantics", "this checker's rule tables (DESIGN.md §4)"},
 		"exhaustive":             true,
+	}
+	if selfTestResult != nil {
+		cov["selftest"] = selfTestResult
 	}
 	ev := map[string]any{
 		"property_id": p.id,
